@@ -4,7 +4,7 @@
 //! pages, existing keys, keys between/before/after the existing ones) and full walks, and records
 //! request and answer in rank space; TLC decides (PagingTrace.tla).
 use crate::common::*;
-use cosmwasm_std::{coin, coins, to_json_binary, Addr, Coin, Empty, Uint128};
+use cosmwasm_std::{coin, coins, to_json_binary, Addr, Binary, Coin, Empty, Uint128};
 use cw4::Member;
 use cw_multi_test::{Contract, ContractWrapper, Executor};
 use cw_utils::{Duration, Expiration, Threshold};
@@ -195,6 +195,38 @@ fn cw20_listings(n: usize, rng: &mut Rng, out: &mut Out, run: &mut u64) {
         }),
     };
     exercise(&w, &l, rng, out, run);
+    // the same listing on a token deployed by a pre-0.14 release (no per-spender index) and upgraded later: some of the
+    // grants have expired by the time of the upgrade; the listing still has to show every stored grant
+    let creator = w.addr("creator");
+    let msg = cw20_base::msg::InstantiateMsg {
+        name: "Old".into(), symbol: "OLD".into(), decimals: 6,
+        initial_balances: holders.iter().map(|a| cw20::Cw20Coin { address: a.to_string(), amount: Uint128::new(5) }).collect(), mint: None, marketing: None,
+    };
+    let old = w.app.instantiate_contract(code, creator.clone(), &msg, &[], "old", Some(creator.to_string())).unwrap();
+    let h = w.app.block_info().height;
+    for (i, o) in holders.iter().enumerate() {
+        let expires = match i % 3 { 0 => Some(cw_utils::Expiration::AtHeight(h + 2)), 1 => Some(cw_utils::Expiration::AtHeight(h + 1000)), _ => None };
+        w.app.execute_contract(o.clone(), old.clone(), &cw20::Cw20ExecuteMsg::IncreaseAllowance { spender: spender.to_string(), amount: Uint128::new(2), expires }, &[]).unwrap();
+    }
+    let prefix = { let ns = b"allowance_spender"; let mut p = (ns.len() as u16).to_be_bytes().to_vec(); p.extend_from_slice(ns); p };
+    for (k, _) in w.app.dump_wasm_raw(&old) {
+        if k.starts_with(&prefix) {
+            w.app.wasm_sudo(old.clone(), &RawOp::RawRemove { key: Binary::from(k) }).unwrap();
+        }
+    }
+    let ver = json!({"contract":"crates.io:cw20-base","version":"0.13.4"});
+    w.app.wasm_sudo(old.clone(), &RawOp::RawSet { key: Binary::from(b"contract_info".to_vec()), value: Binary::from(serde_json::to_vec(&ver).unwrap()) }).unwrap();
+    w.app.update_block(|b| b.height += 5);
+    w.app.migrate_contract(creator, old.clone(), &cw20_base::msg::MigrateMsg {}, code).unwrap();
+    let (t4, s4) = (old.clone(), spender.clone());
+    let l = Listing {
+        name: "cw20.all_spender_allowances.upgraded".into(), rev: false, numeric: false, truth: sorted(holders.iter().map(|a| a.to_string()).collect()), extra_cursors: outsiders(&mut w),
+        fetch: Box::new(move |w, c, lim| {
+            let r: cw20::AllSpenderAllowancesResponse = w.smart(&t4, &cw20_base::msg::QueryMsg::AllSpenderAllowances { spender: s4.to_string(), start_after: c, limit: lim }).unwrap();
+            r.allowances.into_iter().map(|a| a.owner).collect()
+        }),
+    };
+    exercise(&w, &l, rng, out, run);
 }
 
 fn cw1_listings(n: usize, rng: &mut Rng, out: &mut Out, run: &mut u64) {
@@ -373,6 +405,44 @@ fn cw4_listings(n: usize, rng: &mut Rng, out: &mut Out, run: &mut u64) {
         name: "cw4_stake.list_members".into(), rev: false, numeric: false, truth: sorted(stakers), extra_cursors: extra,
         fetch: Box::new(move |w, c, lim| {
             let r: cw4::MemberListResponse = w.smart(&s1, &cw4_stake::msg::QueryMsg::ListMembers { start_after: c, limit: lim }).unwrap();
+            r.members.into_iter().map(|m| m.addr).collect()
+        }),
+    };
+    exercise(&w, &l, rng, out, run);
+    // cw4-stake over a cw20 token: members bond through the token's Send; one more bond arrives through a token that
+    // spells the sender carelessly (upper case): it is refused, and the listing still pages through its real members
+    let creator = w.addr("creator");
+    let tid = w.app.store_code(crate::ics20::FlakyToken::boxed());
+    let tmsg = cw20_base::msg::InstantiateMsg {
+        name: "Stake".into(), symbol: "STK".into(), decimals: 6,
+        initial_balances: members.iter().map(|a| cw20::Cw20Coin { address: a.to_string(), amount: Uint128::new(100) }).collect(), mint: None, marketing: None,
+    };
+    let tok = w.app.instantiate_contract(tid, creator.clone(), &tmsg, &[], "stk", None).unwrap();
+    let msg = cw4_stake::msg::InstantiateMsg { denom: cw20::Denom::Cw20(tok.clone()), tokens_per_weight: Uint128::new(1), min_bond: Uint128::new(2), unbonding_period: Duration::Height(5), admin: None };
+    let st2 = w.app.instantiate_contract(sid, creator, &msg, &[], "s2", None).unwrap();
+    let bond = |w: &mut World, who: &Addr, amt: u128| {
+        let m = cw20::Cw20ExecuteMsg::Send { contract: st2.to_string(), amount: Uint128::new(amt), msg: to_json_binary(&json!({"bond":{}})).unwrap() };
+        w.app.execute_contract(who.clone(), tok.clone(), &m, &[])
+    };
+    let mut stakers2 = vec![];
+    for (i, m) in members.iter().enumerate() {
+        if i % 3 != 0 {
+            bond(&mut w, m, 3).unwrap();
+            stakers2.push(m.to_string());
+        }
+    }
+    w.app.wasm_sudo(tok.clone(), &json!({"sloppy": true})).unwrap();
+    for (i, m) in members.iter().enumerate() {
+        if i % 3 == 0 && i % 2 == 0 {
+            let _ = bond(&mut w, m, 3); // refused by a correct contract
+        }
+    }
+    w.app.wasm_sudo(tok.clone(), &json!({"sloppy": false})).unwrap();
+    let s2 = st2.clone();
+    let l = Listing {
+        name: "cw4_stake.list_members.cw20".into(), rev: false, numeric: false, truth: sorted(stakers2), extra_cursors: outsiders(&mut w),
+        fetch: Box::new(move |w, c, lim| {
+            let r: cw4::MemberListResponse = w.smart(&s2, &cw4_stake::msg::QueryMsg::ListMembers { start_after: c, limit: lim }).unwrap();
             r.members.into_iter().map(|m| m.addr).collect()
         }),
     };
